@@ -16,7 +16,7 @@ use serde::{Deserialize, Serialize};
 use serde_json::Value;
 use std::io::{self, Write};
 use xot::output::xml::{Declaration, DocType, Parameters};
-use xot::output::{Indentation, NoopNormalizer, Output, TokenSerializeParameters};
+use xot::output::{Indentation, NoopNormalizer, Normalizer, Output, TokenSerializeParameters};
 use xot::{NameId, Node, Xot};
 
 fn v(class: &'static str, msg: String) -> Violation {
@@ -222,6 +222,19 @@ struct Obs {
     doctype: Option<DocType>,
 }
 
+/// a deterministic stand-in for a Unicode normalizer: decomposes 'é' and upper-cases 'x'
+#[derive(Clone, Copy)]
+struct TestNormalizer;
+impl Normalizer for TestNormalizer {
+    fn normalize<'a>(&self, content: std::borrow::Cow<'a, str>) -> std::borrow::Cow<'a, str> {
+        if content.contains('\u{e9}') || content.contains('x') {
+            std::borrow::Cow::Owned(content.replace('\u{e9}', "e\u{301}").replace('x', "X"))
+        } else {
+            content
+        }
+    }
+}
+
 fn tparams(o: &Obs) -> TokenSerializeParameters {
     TokenSerializeParameters { cdata_section_elements: o.cdata.clone(), unescaped_gt: o.unescaped_gt }
 }
@@ -314,6 +327,56 @@ fn observe(x: &Xot, o: &Obs, rng: &mut Rng, enumerate_sink: bool, stats: &mut St
             }
         }
         Err(_) => return Err(v("pretty-differ", "pretty_tokens() panicked".to_string())),
+    }
+    // ---- (i') / (ii') the same two comparisons under a caller-supplied normalizer
+    if let Ok(Ok(nplain)) = real_call(|| x.serialize_xml_string_with_normalizer(params(o, false, false), o.node, TestNormalizer)) {
+        let toks = real_call(|| {
+            let mut s = String::new();
+            for (_n, _o, t) in x.tokens(o.node, tparams(o), TestNormalizer) {
+                if t.space {
+                    s.push(' ');
+                }
+                s.push_str(&t.text);
+            }
+            s
+        });
+        match toks {
+            Ok(s) if s == nplain => {}
+            Ok(s) => return Err(v("tokens-differ", format!("with a normalizer: tokens() give {:?}, the string route {:?}", s, nplain))),
+            Err(_) => return Err(v("tokens-differ", "tokens() with a normalizer panicked".to_string())),
+        }
+        if nplain != plain {
+            stats.inc("probe/c16_normalizer_changed_the_text");
+        }
+        if let Ok(Ok(npretty)) = real_call(|| x.serialize_xml_string_with_normalizer(params(o, true, false), o.node, TestNormalizer)) {
+            let pt = real_call(|| {
+                let mut s = String::new();
+                for (_n, _o, t) in x.pretty_tokens(o.node, tparams(o), &o.suppress, TestNormalizer) {
+                    if t.indentation > 0 {
+                        s.push_str(&" ".repeat(t.indentation * 2));
+                    }
+                    if t.space {
+                        s.push(' ');
+                    }
+                    s.push_str(&t.text);
+                    if t.newline {
+                        s.push('\n');
+                    }
+                }
+                s
+            });
+            match pt {
+                Ok(s) if s == npretty => {}
+                Ok(s) => return Err(v("pretty-differ", format!("with a normalizer: pretty_tokens() give {:?}, the pretty string {:?}", s, npretty))),
+                Err(_) => return Err(v("pretty-differ", "pretty_tokens() with a normalizer panicked".to_string())),
+            }
+        }
+        // the Write route with a normalizer
+        let mut sink = SimSink::healthy();
+        let r = real_call(|| x.serialize_xml_write_with_normalizer(params(o, false, false), o.node, &mut sink, TestNormalizer));
+        if !matches!(r, Ok(Ok(()))) || sink.accepted != nplain.as_bytes() {
+            return Err(v("write-differs", format!("serialize_xml_write_with_normalizer wrote {:?}, the string route gives {:?}", String::from_utf8_lossy(&sink.accepted), nplain)));
+        }
     }
     // ---- (iii) output events
     let sub = read_sub(x, o.node)?;
@@ -691,7 +754,7 @@ impl PropEngine for C16Engine {
         if thorough {
             400_000
         } else {
-            12_000
+            30_000
         }
     }
     fn run_one(&self, run_index: u64, run_seed: u64, _known: &KnownFile, stats: &mut Stats) -> Option<EngineFailure> {
@@ -750,7 +813,7 @@ impl PropEngine for C16Engine {
         run_replay(&r, stats, None)
     }
     fn rule(&self) -> String {
-        "Generated documents are parsed; 1-3 rounds of (observe, mutate) per run. An observation draws the observed node (document, document element, any node below), a subset of the present element names as CDATA-section elements (in arbitrary order) and as suppress list, unescaped_gt, declaration and doctype, then checks: tokens() concatenated (space flag) = serialize_xml_string; pretty_tokens() with indentation/newline applied = pretty string; outputs() = the event list derived from a read-back of the tree, each event tagged with its node (inherited prefix events on the top element must be bindings in scope); streams pulled partially and dropped. Write routes (Xot::write and serialize_xml_write with the drawn parameters) go through a simulated sink: healthy, a seeded schedule of short writes and EINTR (must be transparent), and - completely for documents with <= 80 write calls in every third run, sampled otherwise - every write-call index x {short write, Interrupted, Ok(0), hard error}: transparent kinds must deliver the string route's bytes, failing kinds must leave a prefix of them in the sink and a following write to a healthy sink must deliver everything. Mutations between rounds include deep element chains (indentation > 16 levels). Distinct = distinct (document, observation seed); non-trivial = at least 3 nodes.".to_string()
+        "Generated documents are parsed; 1-3 rounds of (observe, mutate) per run. An observation draws the observed node (document, document element, any node below), a subset of the present element names as CDATA-section elements (in arbitrary order) and as suppress list, unescaped_gt, declaration and doctype, then checks: tokens() concatenated (space flag) = serialize_xml_string; pretty_tokens() with indentation/newline applied = pretty string; both again, and serialize_xml_write_with_normalizer, under a caller-supplied Normalizer; outputs() = the event list derived from a read-back of the tree, each event tagged with its node (inherited prefix events on the top element must be exactly the in-scope bindings the element does not redeclare); streams pulled partially and dropped. Write routes (Xot::write and serialize_xml_write with the drawn parameters) go through a simulated sink: healthy, a seeded schedule of short writes and EINTR (must be transparent), and - completely for documents with <= 80 write calls in every third run, sampled otherwise - every write-call index x {short write, Interrupted, Ok(0), hard error}: transparent kinds must deliver the string route's bytes, failing kinds must leave a prefix of them in the sink and a following write to a healthy sink must deliver everything. Mutations between rounds include deep element chains (indentation > 16 levels). Distinct = distinct (document, observation seed); non-trivial = at least 3 nodes.".to_string()
     }
     fn assumptions(&self) -> Vec<String> {
         vec![
